@@ -275,7 +275,7 @@ PROPS = {
             "C06_open_upvalues_preserved_next", "C06_open_upvalues_preserved_run", "C06_open_slot_may_be_dead",
             "C06_vm_register_shares", "C06_vm_quiet_instructions", "C06_vm_quiet_instructions_same_objects",
             "C06_vm_second_capture_shares", "C06_vm_heap_mono_meaning", "C06_vm_objects_stable",
-            "C06_vm_objects_stable_run",
+            "C06_vm_objects_stable_run", "C06_vm_closures_closed",
             "C06_vm_read_write_open", "C06_vm_close_keeps_value",
             "C06_vm_return_closes", "C06_vm_closed_upvalue_is_private", "C06_vm_closure_body"]},
         n_quick=200, n_thorough=3000,
